@@ -14,6 +14,7 @@ type VerifEntry struct {
 	Expires    time.Time
 	LastAccess time.Time
 	Object     any
+	Written    time.Time
 }
 
 type VerifCache interface {
@@ -49,7 +50,7 @@ func (c *MemoryCache[MetadataT]) VerifSnapshot() map[string]VerifEntry {
 	defer c.mu.RUnlock()
 	out := make(map[string]VerifEntry, len(c.entries))
 	for k, e := range c.entries {
-		out[k.Hex] = VerifEntry{Size: e.meta.Size, Expires: e.meta.Expires, LastAccess: e.meta.LastAccess, Object: e.meta.Object}
+		out[k.Hex] = VerifEntry{Size: e.meta.Size, Expires: e.meta.Expires, LastAccess: e.meta.LastAccess, Object: e.meta.Object, Written: e.meta.TimeWritten}
 	}
 	return out
 }
@@ -96,7 +97,7 @@ func (c *FileCache[MetadataT]) VerifSnapshot() map[string]VerifEntry {
 	defer c.mu.RUnlock()
 	out := make(map[string]VerifEntry, len(c.entriesMetadata))
 	for k, m := range c.entriesMetadata {
-		out[k.Hex] = VerifEntry{Size: m.Size, Expires: m.Expires, LastAccess: m.LastAccess, Object: m.Object}
+		out[k.Hex] = VerifEntry{Size: m.Size, Expires: m.Expires, LastAccess: m.LastAccess, Object: m.Object, Written: m.TimeWritten}
 	}
 	return out
 }
